@@ -13,8 +13,10 @@ CONSTANTS TraceFile,    \* path of the ndjson trace
 TLog == ndJsonDeserialize(TraceFile)
 
 VARIABLES l,            \* index of the next line to consume
-          noteLines     \* <<line, finding ids>> for each step that needed a deviant disjunct
-tvars == <<vars, l, noteLines>>
+          noteLines,    \* <<line, finding ids>> for each step that needed a deviant disjunct
+          rt,           \* largest begin tick seen in this history (linearised concurrent runs)
+          hinfo         \* the "reset" line that started the current history (driver family, options)
+tvars == <<vars, l, noteLines, rt, hinfo>>
 
 Ev == TLog[l]
 \* a call that panicked is recorded with a "panic" field: no action admits it (C20)
@@ -32,7 +34,17 @@ ObsOf(o) ==
                            <<o.zs[i].nodes[j].k, o.zs[i].nodes[j].s, o.zs[i].nodes[j].v>>]>> :
              i \in {j \in 1..Len(o.zs) : o.zs[j].nodes # <<>>}}]
 
-TraceInit == Init /\ l = 1 /\ noteLines = {} /\ TLCSet(1, 1)
+TraceInit == Init /\ l = 1 /\ noteLines = {} /\ rt = 0 /\ hinfo = [op |-> "reset"] /\ TLCSet(1, 1)
+
+\* C14, real-time clause: a linearised concurrent history lists the
+\* transactions in lock-acquisition order; that order must extend real-time
+\* precedence, i.e. no transaction may end (etick) before a transaction
+\* placed earlier has begun (tick).  Ticks come from one process-wide counter.
+RealTimeOK ==
+  ("etick" \in DOMAIN Ev) => Ev.etick > rt
+NextRt ==
+  IF Ev.op = "reset" THEN 0
+  ELSE IF Ev.op = "begin" /\ "tick" \in DOMAIN Ev /\ Ev.tick > rt THEN Ev.tick ELSE rt
 
 TrReset ==
   /\ Is({"reset"})
@@ -76,6 +88,23 @@ TrMerge ==
           \/ /\ ~MergeKeeps /\ F_MergeDs \in Dev /\ HasDsRecs
              /\ status' = "lost" /\ notes' = notes \cup {F_MergeDs}
              /\ UNCHANGED <<mem, log, tx>>
+
+\* Known finding F-C17-2: Merge is not synchronised with transactions.  It
+\* decides from an unlocked look at the indexes which records are live and
+\* rewrites them later under the lock, so a value committed in between is
+\* superseded by the older one (lost update), here and after reopen.  In a
+\* history during which a Merge goroutine ran (declared by its reset line),
+\* the first read or observation that the ideal rule rejects ends the
+\* judged part of the history.
+F_MergeRace == "F-C17-2"
+MergeRan == "merger" \in DOMAIN hinfo /\ hinfo.merger
+TrMergeRace ==
+  /\ MergeRan /\ F_MergeRace \in Dev /\ status # "lost"
+  /\ \/ Is(Reads) /\ ~IsFin /\ tx.st \in {"rw", "ro"} /\ ~ReadOK(Ev, tx.view, Dev)
+     \/ Is({"obs"}) /\ tx.st = "none" /\ ~ObsMatches(ObsOf(Ev.o), mem, Ev.t0, Ev.t1)
+     \/ Is({"shadow", "backup"}) /\ tx.st = "none" /\ (Ev.err \/ ~ObsMatches(ObsOf(Ev.o), Replay(log), Ev.t0, Ev.t1))
+  /\ status' = "lost" /\ notes' = notes \cup {F_MergeRace}
+  /\ UNCHANGED <<mem, log, tx>>
 
 TrLost ==
   /\ l <= Len(TLog) /\ status = "lost" /\ Ev.op # "reset" /\ l' = l + 1
@@ -121,8 +150,10 @@ TrCrash ==
 
 TraceNext ==
   /\ \/ TrReset \/ TrBegin \/ TrRead \/ TrMutate \/ TrFinished \/ TrCommit \/ TrRollback
-     \/ TrClose \/ TrOpen \/ TrMerge \/ TrObs \/ TrCopyObs \/ TrCrash \/ TrLost
+     \/ TrClose \/ TrOpen \/ TrMerge \/ TrObs \/ TrCopyObs \/ TrCrash \/ TrLost \/ TrMergeRace
   /\ noteLines' = IF notes' = notes THEN noteLines ELSE noteLines \cup {<<l, notes' \ notes>>}
+  /\ RealTimeOK /\ rt' = NextRt
+  /\ hinfo' = IF Ev.op = "reset" THEN Ev ELSE hinfo
 
 TraceSpec == TraceInit /\ [][TraceNext]_tvars
 
